@@ -15,7 +15,9 @@ let names = [
   "NativeScripts"; "PlutusScripts"; "PlutusData"; "PlutusList"; "Redeemers"; "TransactionMetadatum";
   "GeneralTransactionMetadata"; "AuxiliaryData"; "ScriptRef"; "TransactionOutputLegacy"; "TransactionOutputLegacyDH";
   "TransactionOutputMap"; "TransactionOutput"; "TransactionOutputs"; "TransactionBody"; "Vkeywitness";
-  "Vkeywitnesses"; "BootstrapWitness"; "BootstrapWitnesses"; "TransactionWitnessSet"; "Transaction"; "Int" ]
+  "Vkeywitnesses"; "BootstrapWitness"; "BootstrapWitnesses"; "TransactionWitnessSet"; "Transaction"; "Int";
+  "VRFCert"; "OperationalCert"; "HeaderBody"; "Header"; "HeaderBodyPraos"; "HeaderPraos"; "Block"; "BlockPraos" ]
+let header_types = ["HeaderBody"; "Header"; "HeaderBodyPraos"; "HeaderPraos"; "Block"; "BlockPraos"]
 let table : (string * (schema * rule)) list =
   let ps = conway_pairs depth in
   if List.length ps <> List.length names then failwith "names/conway_pairs length mismatch";
@@ -254,18 +256,22 @@ let gen_mode seed tier out =
   let per = if tier = "thorough" then 300 else 30 in
   let negs = ref [] in
   List.iter (fun (name, (s, r)) ->
+      (* block types: few and small (a block of bodies and witness sets is large), no rejection sampling: header bodies are
+         judged by class, not by the Conway rule alone *)
+      let is_block = List.mem name header_types in
+      let per = if is_block then (if tier = "thorough" then 40 else 6) else per in
       for i = 0 to per - 1 do
-        let size = [| 0; 1; 2; 3; 4; 5; 6; 8 |].(i mod 8) in
+        let size = if is_block then [| 0; 1; 2; 1; 2; 3 |].(i mod 6) else [| 0; 1; 2; 3; 4; 5; 6; 8 |].(i mod 8) in
         (* rejection sampling towards Conway-valid values (the judge itself decides); every 6th case is kept as drawn *)
         let v = ref (gen s size) in
         let tries = ref 0 in
         let valid x = wfv s x && judge r (enc s x) in
-        while i mod 6 <> 5 && not (valid !v) && !tries < 12 do v := gen s size; incr tries done;
+        while not is_block && i mod 6 <> 5 && not (valid !v) && !tries < 12 do v := gen s size; incr tries done;
         let v = !v in
         let bs = enc s v in
         if wfv s v then begin
           Printf.fprintf oc "rt %s %s\n" name (hex_of_bytes bs);
-          if i < (if tier = "thorough" then 40 else 6) && judge r bs then
+          if not is_block && i < (if tier = "thorough" then 40 else 6) && judge r bs then
             (match parse_exact bs with
              | Ok it -> List.iter (fun (tag, x) -> negs := (name, tag, x) :: !negs) (mutations name it bs)
              | _ -> ())
@@ -294,6 +300,13 @@ let run_mode () = run_driver (fun toks impl ->
           let dom = wfv s v && refined writer_form s v && re = hexs && conforms_bytes conway_env s r v in
           let verdict =
             match impl with
+            | ["ok"; h] when List.mem name header_types ->
+              (* block types: the Conway rule, else the two flat header-body shapes the library writes (KnownClass.v) *)
+              (match int_of_n (judge_class_header r (bytes_of_hex h)) with
+               | 0 -> "holds"
+               | 4 -> if wfv s v && re = hexs then "fails:C03-praos-header-body-flat" else "na"
+               | 5 -> "na"                                  (* pre-Babbage two-VRF header body: no Conway rule *)
+               | _ -> if dom then "fails:-" else "na")
             | ["ok"; h] -> (match int_of_n (judge_class r (bytes_of_hex h)) with
                 | 0 -> "holds"
                 | c -> if not dom then "na" else if c = 1 then "fails:C03-mint-quantity-outside-int64" else "fails:-")
